@@ -385,6 +385,12 @@ package leader
 //@   on call fn assert C17.breaker_calls_once: calls(fn) == 1
 //@   on ret fn as r set fnErrNil = r.result == nil
 //@   on ret fn set called = true
+//@   ghost clock Int = 0
+//@   ghost clockFresh Bool = false
+//@   on ret time.Now as t set clock = t.result
+//@   on ret time.Now set clockFresh = true
+//@   on ret fn set clockFresh = false
+//@   on store CircuitBreaker.lastFailureTime as s assert C17.failure_stamped_when_it_happened: clockFresh && s.value == clock
 //@   on unlock CircuitBreaker.mu as l assert C17.breaker_failure_counts: called && !fnErrNil ==> l.base.failures == oldFailures + 1 && ((l.base.state == 1) == (l.base.failures >= cb.failureThreshold) || (l.base.state == 2 && l.base.failures < cb.failureThreshold))
 //@   on unlock CircuitBreaker.mu as l assert C17.breaker_success_closes: called && fnErrNil ==> l.base.failures == 0 && l.base.state == 0
 //@   on unlock CircuitBreaker.mu as l assert C17.breaker_skip_keeps_state: !called ==> l.base.failures == oldFailures && l.base.state == 1 && openAtEntry
